@@ -1260,6 +1260,12 @@ func (fc *fnCtx) execFrom(st *State, fr *frame, b *ssa.BasicBlock, i int) {
 			}
 			preHeap, preNow := copyHeap(st.heap), st.now
 			fc.doCall(st, fr, ins, func(st *State, res Val) {
+				if nm := calleeName(ins.Common()); nm != "" && fr.parent == nil {
+					if st.lastRes == nil {
+						st.lastRes = map[string]Val{}
+					}
+					st.lastRes[nm] = res
+				}
 				if ins.Type() != nil {
 					if tup, ok := ins.Type().(*types.Tuple); ok && tup.Len() == 0 {
 						// no value
